@@ -774,6 +774,11 @@ pub fn record(args: &Args) {
 				Value::Array(["9223372036854775807", "9223372036854775808", "9223372036854775809", "18446744073709551615", "18446744073709551614", "-9223372036854775808",
 					"-9223372036854775807", "4294967295", "4294967296", "-2147483649", "9007199254740993", "-9007199254740993", "1000000000000000", "-1000000000000000",
 					"9999999999999999", "-9999999999999999", "0", "-1"].iter().map(|s| num(s)).collect())
+			} else if i == 3 {
+				// SYSTEMATIC: whole numbers spelled as floats around 2^63 / 2^64 / 10^19 (visit_f64 territory), both signs
+				Value::Array(["9.5e18", "9.3e18", "9223372036854775808.0", "9223372036854775807.0", "9.223372036854775807e18", "1e19", "1.0e19", "9.999999999999998e18", "-9.5e18",
+					"-9223372036854775809.0", "1.8446744073709552e19", "18446744073709551616.0", "1e18", "1.5e18", "9.007199254740993e15", "4.5e15", "2e63", "123456789012345678.0"]
+					.iter().map(|s| num(s)).collect())
 			} else if i == 2 {
 				Value::Object(["18446744073709551615", "9223372036854775809", "-9223372036854775808"].iter().enumerate().map(|(j, s)| Entry::new(format!("k{j}").as_str().into(), num(s))).collect())
 			} else {
@@ -865,7 +870,12 @@ pub fn record(args: &Args) {
 			}
 		}
 		if want("sj_rt") {
-			let sj = gen_sj(&mut rng, 1 + i % 3);
+			let sj = if i == 0 {
+				// SYSTEMATIC: serde_json floats d x 10^n, d = 1..9, n = -25..=25, both signs (they print as integers with an exponent)
+				serde_json::Value::Array((-25..=25).flat_map(|n: i32| (1..=9).map(move |d| format!("{d}e{n}").parse::<f64>().unwrap())).flat_map(|f| [f, -f]).map(|f| serde_json::json!(f)).collect())
+			} else {
+				gen_sj(&mut rng, 1 + i % 3)
+			};
 			let r = guarded(|| {
 				// alternately through the named conversions and through the From impls
 				let js = if i % 2 == 0 { Value::from_serde_json(sj.clone()) } else { Value::from(sj.clone()) };
@@ -880,7 +890,12 @@ pub fn record(args: &Args) {
 		if want("js_rt") {
 			// the stated domain: no duplicate keys, numbers are 64-bit integers or finite doubles;
 			// plus (no-panic clause) any magnitude
-			let v = if i == 2 {
+			let v = if i == 3 || i == 4 {
+				// SYSTEMATIC: m x 10^e for every e in -30..=30 and mantissas whose product is not exact in binary (fast paths of
+				// decimal-to-double conversion have their table bounds in here), plain and with a fraction
+				let es: Vec<i32> = if i == 3 { (0..=30).collect() } else { (-30..0).collect() };
+				Value::Array(es.iter().flat_map(|e| ["3", "6", "7", "9", "1.1", "6.02", "9007199254740991", "4503599627370497", "1"].iter().map(move |m| num(&format!("{m}e{e}")))).collect())
+			} else if i == 2 {
 				// finite doubles spelled with more than a thousand digits after the point (every digit may decide the rounding)
 				Value::Array(vec![num(&format!("0.{}1e1101", "0".repeat(1100))), num(&format!("9007199254740993.{}1", "0".repeat(1100))), num(&format!("-1.{}9", "9".repeat(1150))),
 					num(&crate::numgen::plain(&crate::numgen::midpoint_above(1, -1074)))])
